@@ -4,6 +4,7 @@
 #include "engines/seqx/seqx.h"
 #include "util/PulseNode.h"
 #include "ref/refpulse.h"
+#include <pthread.h>
 
 using namespace muscle;
 
@@ -25,6 +26,13 @@ static bool g_trace = false;            // --replay prints every callback and ve
 static bool g_behaviourOnly = false;   // diagnostic option --behaviour-only 1: skip the structural invariants (used to show that the behavioural oracle alone catches a seeded fault)
 static void SharedInit() { void * p = mmap(NULL, sizeof(Shared), PROT_READ | PROT_WRITE, MAP_SHARED | MAP_ANONYMOUS, -1, 0); if (p == MAP_FAILED) { perror("mmap"); exit(3); } g_sh = (Shared *)p; memset(g_sh, 0, sizeof(Shared)); g_sh->exLen = 1 << 30; }
 static void SharedAdd(volatile long * c, long v) { if (g_sh && v) __sync_fetch_and_add(c, v); }
+
+// ---------------------------------------------------------------- hang watchdog (CPU time only): a transition that makes no progress for 2-3 s of this
+// process's own CPU time (a normal one takes microseconds) ends the process with exit code 86; the engine attributes the death to the history.
+static volatile unsigned long g_progress = 0; static unsigned long g_wdLast = 0; static int g_wdStalls = 0; static bool g_wdArmed = false;
+static void WdTick(int) { if (g_progress == g_wdLast) { if (++g_wdStalls >= 2) _exit(86); } else { g_wdStalls = 0; g_wdLast = g_progress; } }
+static void WdChild() { g_wdArmed = false; }   // interval timers are not inherited across fork()
+static void WdArm() { signal(SIGVTALRM, WdTick); struct itimerval it; it.it_interval.tv_sec = 1; it.it_interval.tv_usec = 0; it.it_value = it.it_interval; setitimer(ITIMER_VIRTUAL, &it, NULL); g_wdArmed = true; g_wdStalls = 0; g_wdLast = g_progress; }
 
 enum ActKind { A_NONE = 0, A_SET_NEVER, A_SET_PLUS1, A_INVALIDATE, A_DETACH, A_ATTACH, A_DESTROY, NUM_ACTS };
 static const char * ActName(int k) { static const char * n[] = {"none", "set-own-time(never)", "set-own-time(now+1)", "invalidate", "detach", "attach-under-self", "destroy"}; return n[k]; }
@@ -331,6 +339,7 @@ public:
 
    int ApplyOp(World & w, const Op & o, const std::string & opName, std::string & msg, std::string & key) const
    {
+      g_progress++; if (!g_wdArmed) WdArm();
       w.lastDeferred = 0; w.lastKind = o.k; w.cbKinds = 0; w.ood = false; w.activeMask = 0; w.nAsked = w.nPulsed = 0; if (!w.err.empty()) { w.err.clear(); w.errKey.clear(); }
       refpulse::Model & m = w.m;
       switch (o.k) {
@@ -443,6 +452,7 @@ int main(int argc, char ** argv)
    verif::Args args; args.Parse(argc, argv);
    verif::Result res; res.harness = "C20_pulsenode";
    SharedInit();
+   pthread_atfork(NULL, NULL, WdChild);
    g_behaviourOnly = args.kv.count("behaviour-only") && atoi(args.kv["behaviour-only"].c_str()) != 0;
    if (args.kv.count("list-ops")) {   // diagnostic: op indices of each part's (thorough) alphabet and the start states, for hand-written replay files
       for (int p = 0; p < NUM_PROFILES; p++) { PulseModel m(p, true); printf("part %s\n", ProfileName(p)); for (int s = 0; s < m.NumStarts(); s++) printf("  start %d: %s\n", s, m.StartName(s).c_str()); for (int i = 0; i < m.NumOps(); i++) printf("  op %d: %s\n", i, m.OpName(i).c_str()); }
